@@ -61,21 +61,60 @@ package fiber
 // (Host, IPs, Subdomains of the view carry their C10 clauses in zz_contracts_c06_verif.go, next to the C06 ones.)
 // ---------------------------------------------------------------------------------------------
 //@ func (*DefaultReq).IsProxyTrusted
+//@   props C10 C07
 //@   pure
 //@   ensures same-decision: result == trusted(r.ctx, epoch)
+//@   safety nil
+//@   requires [C07] bound-helper: boundHelper(r)
+//@   atcall (*DefaultCtx).IsProxyTrusted: [C07] on-the-bound-context: c == r.ctx && liveCtx(c)
+//@   ensures [C07] forwards-to-IsProxyTrusted: called((*DefaultCtx).IsProxyTrusted)
+//@   ensures [C07] returns-its-result: result == last((*DefaultCtx).IsProxyTrusted)
 //@ func (*DefaultReq).Secure
+//@   props C10 C07
 //@   ensures untrusted-iff-tls: !trusted(r.ctx, epoch) ==> (result <==> isTLS(r.ctx.fasthttp, epoch))
 //@   ensures tls-secure: isTLS(r.ctx.fasthttp, epoch) ==> result
+//@   safety nil
+//@   pure
+//@   requires [C07] bound-helper: boundHelper(r)
+//@   atcall (*DefaultCtx).Secure: [C07] on-the-bound-context: c == r.ctx && liveCtx(c)
+//@   ensures [C07] forwards-to-Secure: called((*DefaultCtx).Secure)
+//@   ensures [C07] returns-its-result: result == last((*DefaultCtx).Secure)
 //@ func (*DefaultReq).Hostname
+//@   props C10 C07
 //@   ensures untrusted-uri-hostname: !trusted(r.ctx, epoch) ==> result == parseAddrHost(uriHost(reqURI(r.ctx.fasthttp.Request, epoch), epoch))
+//@   safety nil
+//@   pure
+//@   requires [C07] bound-helper: boundHelper(r)
+//@   atcall (*DefaultCtx).Hostname: [C07] on-the-bound-context: c == r.ctx && liveCtx(c)
+//@   ensures [C07] forwards-to-Hostname: called((*DefaultCtx).Hostname)
+//@   ensures [C07] returns-its-result: result == last((*DefaultCtx).Hostname)
 //@ func (*DefaultReq).IP
+//@   props C10 C07
 //@   ensures untrusted-remote-ip: !trusted(r.ctx, epoch) || len(r.ctx.app.config.ProxyHeader) == 0 ==> result == ipString(remoteIP(r.ctx.fasthttp, epoch))
 //@   ensures valid-ip: r.ctx.app.config.EnableIPValidation ==> isIPv4(result) || isIPv6(result) || result == ipString(remoteIP(r.ctx.fasthttp, epoch))
+//@   safety nil
+//@   pure
+//@   requires [C07] bound-helper: boundHelper(r)
+//@   atcall (*DefaultCtx).IP: [C07] on-the-bound-context: c == r.ctx && liveCtx(c)
+//@   ensures [C07] forwards-to-IP: called((*DefaultCtx).IP)
+//@   ensures [C07] returns-its-result: result == last((*DefaultCtx).IP)
 //@ func (*DefaultReq).Port panics
+//@   props C10 C07
 //@   pure
 //@   ensures port-of-the-connection: result == fmtInt(as(remoteAddr(r.ctx.fasthttp, epoch), *net.TCPAddr).Port)
+//@   safety nil
+//@   requires [C07] bound-helper: boundHelper(r)
+//@   atcall (*DefaultCtx).Port: [C07] on-the-bound-context: c == r.ctx && liveCtx(c)
+//@   ensures [C07] forwards-to-Port: called((*DefaultCtx).Port)
+//@   ensures [C07] returns-its-result: result == last((*DefaultCtx).Port)
 //@ func (*DefaultReq).BaseURL
+//@   props C10 C07
 //@   requires cache-wf: r.ctx.baseURI == "" || r.ctx.baseURI == scheme(r.ctx, epoch) + "://" + host(r.ctx, epoch)
 //@   modifies r.ctx.baseURI
 //@   ensures untrusted-connection-and-host-header: !trusted(r.ctx, epoch) && old(r.ctx.baseURI) == "" ==> result == ite(isTLS(r.ctx.fasthttp, epoch), "https", "http") + "://" + uriHost(reqURI(r.ctx.fasthttp.Request, epoch), epoch)
 //@   ensures cached-value-returned: old(r.ctx.baseURI) != "" ==> result == old(r.ctx.baseURI)
+//@   safety nil
+//@   requires [C07] bound-helper: boundHelper(r)
+//@   atcall (*DefaultCtx).BaseURL: [C07] on-the-bound-context: c == r.ctx && liveCtx(c)
+//@   ensures [C07] forwards-to-BaseURL: called((*DefaultCtx).BaseURL)
+//@   ensures [C07] returns-its-result: result == last((*DefaultCtx).BaseURL)
